@@ -357,10 +357,7 @@ func judge(w *want, g *got) engine.Result {
 		if ru, err := url.Parse(w.uri); err == nil {
 			have := u.Query()
 			for k, v := range ru.Query() {
-				hv := have[k]
-				if used == "query" {
-					// response parameters are appended; none of ours collide with the registered names
-				}
+				hv := have[k] // none of the response parameter names collides with a registered one
 				if !multisetEq(hv, v) {
 					return bad("registered-query-lost", "registered-query-lost", used, fmt.Sprintf("registered query parameter %q=%q arrived as %q in %s", k, v, hv, short(g.loc)))
 				}
